@@ -316,11 +316,12 @@ static var Range_Get(var self, var key) {
   struct Int* x = r->value;
   
   int64_t i = c_int(key);
-  i = i < 0 ? Range_Len(r)+i : i;
+  i = i < 0 ? (int64_t)Range_Len(r)+i : i;
   
-  if (r->step == 0) {
-    x->val = 0;
-    return x;
+  if (i < 0 or i >= (int64_t)Range_Len(r)) {
+    return throw(IndexOutOfBoundsError, 
+      "Index '%i' out of bounds for Range of start %i, stop %i and step %i.", 
+      key, $I(r->start), $I(r->stop), $I(r->step));
   }
   
   if (r->step  > 0 and (r->start + r->step * i) < r->stop) {
